@@ -190,8 +190,12 @@ def rule_byheight(ctx, rule='C10.BYHEIGHT'):
     inner = inners[0] if len(inners) == 1 else None
     ok2 = False
     if inner is not None:
-        asg = [s for s in inner.own_nodes() if isinstance(s, ast.Assign) and isinstance(s.value, ast.Call) and norm(s.value.func) == 'max']
-        ok2 = len(asg) == 1 and norm(asg[0].value) == f'max(0, min({g.params[2]}, self.state.height + 1 - {g.params[1]}))'
+        # every read on every return path: its size is 80 * max(0, min(count, state.height + 1 - start))
+        from .. import paths as P
+        want = f'max(0, min({g.params[2]}, self.state.height + 1 - {g.params[1]}))'
+        sizes = [norm(c.args[1]) for pth in P.returns(inner.node) for c in ast.walk(pth.value)
+                 if isinstance(c, ast.Call) and norm(c.func) == 'self.headers_file.read' and len(c.args) == 2]
+        ok2 = bool(sizes) and all(sz in (f'{want} * 80', f'80 * {want}') for sz in sizes)
     ctx.check(ok2, rule, ctx.key(g, None, 'header count bound'),
               'header reads are bounded by the flushed state height', 'header reads are not bounded by state.height + 1 - start',
               loc=ctx.loc(g, g.node))
